@@ -34,15 +34,15 @@ Qed.
 
 (* a concrete history: array, mesh over it, the same mesh merged twice, a copy, transforms and an edit *)
 Definition ex_hist : list (op (T:=Qc)) :=
-  [ ONew [IFresh (q 0 1, q 0 1, q 0 1); IFresh (q 1 1, q 0 1, q 0 1); IFresh (q 0 1, q 2 1, q 0 1)] [] [] [] (-1);
-    OFromArrays 0 [[0;1];[1;2];[0;2]]%Z [[0;1;2]]%Z [] 2;
+  [ ONew [IFresh (q 0 1, q 0 1, q 0 1); IFresh (q 1 1, q 0 1, q 0 1); IFresh (q 0 1, q 2 1, q 0 1)] [] [] [] corn0 (-1);
+    OFromArrays 0 [[0;1];[1;2];[0;2]]%Z [[0;1;2]]%Z [] (mkcorn [0;1;2] [0;0;0] [] [] [] [])%Z 2;
     OMerge [1%nat; 1%nat];
     OCopy 2 false;
     OTranslate 2 (PVal (q 1 2, q 0 1, q 0 1));
     ONormalize 3 true;
     OEdit 0 1 0 (q 5 1);
     ORing 3 1 true [(q 0 1, q 0 1, q 1 1); (q 1 1, q 0 1, q 0 1); (q (-1) 2, q 1 1, q 0 1); (q (-1) 2, q (-1) 1, q 0 1);
-                    (q 1 1, q 0 1, q 0 1)] [] [[0;1;2];[0;2;3];[0;3;4]]%Z ].
+                    (q 1 1, q 0 1, q 0 1)] [] [[0;1;2];[0;2;3];[0;3;4]]%Z corn0 ].
 
 Example ex_hist_runs : exists w, run QcO (w0 (T:=Qc)) ex_hist = Some w /\ length (wobjs w) = 5%nat.
 Proof. vm_compute. eexists. split; reflexivity. Qed.
@@ -60,8 +60,38 @@ Proof. intros w H. eapply invariant_all_histories; eauto using wf_w0, ex_hist_ok
 (* the necessity of the invariant (the mechanism of the repaired defects): when two vertex ids DO share a buffer,
    the in-place loop of translate moves that vertex twice *)
 Definition shared_world : world (T:=Qc) :=
-  mkw (mkmem (wr (PositiveMap.empty _) 1%positive (q 1 1, q 0 1, q 0 1)) 2%positive) [mkobj [1%positive; 1%positive] [] [] [] 0].
+  mkw (mkmem (wr (PositiveMap.empty _) 1%positive (q 1 1, q 0 1, q 0 1)) 2%positive) [mkobj [1%positive; 1%positive] [] [] [] corn0 0].
 Example shared_buffer_moves_twice :
   exists w', step QcO shared_world (OTranslate 0 (PVal (q 1 1, q 0 1, q 0 1))) = Some w'
              /\ obj_coords QcO w' 0 = [(q 3 1, q 0 1, q 0 1); (q 3 1, q 0 1, q 0 1)].
 Proof. eexists. split; vm_compute; reflexivity. Qed.
+
+(* FINDING (known, not repaired here): producers that hand the SOURCE's vectors to their result - boundary extraction,
+   subdivision; the procedural generators do the same with the caller's point arguments. In the model such a result is an
+   object on shared cells (ONew with IShare); a transform of the result then moves the source. Witness: a triangle, its
+   boundary polyline on the same three buffers, translate the boundary by (1,0,0). *)
+Definition alias_hist : list (op (T:=Qc)) :=
+  [ ONew [IFresh (q 0 1, q 0 1, q 0 1); IFresh (q 1 1, q 0 1, q 0 1); IFresh (q 0 1, q 1 1, q 0 1)]
+         [[0;1];[1;2];[0;2]]%Z [[0;1;2]]%Z [] (mkcorn [0;1;2] [0;0;0] [] [] [] [])%Z 2;
+    ONew [IShare 0 0; IShare 0 1; IShare 0 2] [[0;1];[1;2];[0;2]]%Z [] [] corn0 1 ].
+Lemma derived_alias_moves_the_source :
+  exists (w1 w2 : world (T:=Qc)) o i j,
+    run QcO (w0 (T:=Qc)) alias_hist = Some w1 /\ wf w1 /\ ok_hist QcO (w0 (T:=Qc)) alias_hist
+    /\ step QcO w1 o = Some w2 /\ target o = Some i /\ j <> i /\ (j < length (wobjs w1))%nat
+    /\ obj_coords QcO w2 j <> obj_coords QcO w1 j.
+Proof.
+  assert (Hok : ok_hist QcO (w0 (T:=Qc)) alias_hist).
+  { cbn [ok_hist alias_hist]. split.
+    - intros m' cs E. vm_compute in E. inversion E; subst. repeat constructor; simpl; intuition discriminate.
+    - intros w1 E1. split; [|intros; exact I].
+      vm_compute in E1. inversion E1; subst. intros m' cs E. vm_compute in E. inversion E; subst.
+      repeat constructor; simpl; intuition discriminate. }
+  destruct (run QcO (w0 (T:=Qc)) alias_hist) as [w1|] eqn:E1; [|vm_compute in E1; discriminate].
+  destruct (step QcO w1 (OTranslate 1 (PVal (q 1 1, q 0 1, q 0 1)))) as [w2|] eqn:E2;
+    [|vm_compute in E1; inversion E1; subst; vm_compute in E2; discriminate].
+  exists w1, w2, (OTranslate 1 (PVal (q 1 1, q 0 1, q 0 1))), 1%nat, 0%nat.
+  split; [reflexivity|]. split; [eapply invariant_all_histories; eauto using wf_w0|]. split; [exact Hok|].
+  split; [exact E2|]. split; [reflexivity|]. split; [discriminate|].
+  vm_compute in E1. inversion E1; subst. vm_compute in E2. inversion E2; subst.
+  split; [vm_compute; auto|]. vm_compute. discriminate.
+Qed.
